@@ -76,6 +76,7 @@ type Obligation struct {
 type Env struct {
 	info     *types.Info
 	names    map[string]Val
+	oldNames map[string]Val
 	old      *State
 	scopePos token.Pos
 	contract bool
@@ -119,6 +120,8 @@ type Exec struct {
 	curLoopWritable []string
 	inlineMode bool
 	scannerHandle string
+	codeEnv *Env
+	usedPoints map[int]bool
 	inlineResult *Val
 }
 
@@ -126,6 +129,12 @@ type loopCtx struct {
 	allocEntry string
 	modRefs    []string
 	autoSlices []autoSlice
+	autoPaths  []autoPath
+}
+
+type autoPath struct {
+	expr   ast.Expr
+	preRef string
 }
 
 type autoSlice struct {
@@ -294,6 +303,7 @@ func (x *Exec) heap(st *State, elemSort string) string {
 		// heaps that were never mentioned before are the same initial heap on every path
 		name := "H0_" + sortKey(elemSort)
 		x.c.declare(name, fmt.Sprintf("(declare-fun %s () %s)", name, x.c.heapName(elemSort)))
+		x.c.sorts[name] = x.c.heapName(elemSort)
 		h = name
 		st.heaps[elemSort] = h
 		if x.entry != nil {
